@@ -96,7 +96,6 @@ func applyServiceExtends(ctx context.Context, name string, services map[string]a
 		if err != nil {
 			return nil, err
 		}
-		filename = refFilename
 		// the services followed from here on are those of the extended file
 		ctx = context.WithValue(ctx, consts.ComposeFileKey{}, refFilename)
 	} else {
